@@ -92,10 +92,17 @@ def evaluate(ctx, cases):
             it = core.outcome(lambda: [(x.path, core.canon(x.obj)) for x in compiled.finditer(doc)])
             if "ok" in it and [[p, v] for p, v in it["ok"]] != [[n["path"], n["val"]] for n in m["nodes"]]:
                 ctx.mismatch("q.finditer", inp, it["ok"][:6], [[n["path"], n["val"]] for n in m["nodes"]][:6])
+            # every entry point, with paths (not only values), on the parsed document
+            if "ok" in it:
+                qeval.compare_entry_points(ctx, text, compiled, doc, None, [[p, v] for p, v in it["ok"]],
+                                           "every entry point must produce the matches (paths and values) of compiled.finditer", inp)
+            direct = core.outcome(lambda: [[x.path, core.canon(x.obj)] for x in jsonpath.query(text, doc)])
+            if "ok" in it and direct.get("ok") != [[p, v] for p, v in it["ok"]]:
+                ctx.violation("iterating a query object directly must yield the matches of finditer", inp, direct.get("ok", direct), it["ok"][:6])
             # entry points
             forms = {"parsed": lambda: doc}
             if isinstance(doc, (dict, list)):
-                txt = json.dumps(doc)
+                txt = json.dumps(doc, ensure_ascii=bool(ctx.rng.random() < 0.3))      # mostly raw UTF-8 text / bytes
                 forms["text"] = lambda: txt
                 forms["StringIO"] = lambda: io.StringIO(txt)
                 forms["BytesIO"] = lambda: io.BytesIO(txt.encode())
